@@ -69,6 +69,7 @@ type RunResult struct {
 	State    map[string][]model.TripleSpec `json:"state,omitempty"`
 	Names    []string                      `json:"names,omitempty"`
 	Micros   int64                         `json:"us,omitempty"`
+	ReadOnly bool                          `json:"ro,omitempty"` // SELECT or SHOW
 	// fault injection
 	Calls      []string `json:"calls,omitempty"`
 	CallElems  []int    `json:"call_elems,omitempty"`
@@ -151,6 +152,7 @@ func execBQL(ctx context.Context, text string, st storage.Store, chanSize, bulkS
 		return
 	}
 	res.Stage = "plan"
+	res.ReadOnly = stm.Type() == semantic.Query || stm.Type() == semantic.Show
 	pln, err := planner.New(ctx, st, stm, chanSize, bulkSize, nil)
 	if err != nil {
 		res.Err = err.Error()
@@ -185,25 +187,79 @@ func firstFrames(stack string, n int) string {
 	return strings.Join(keep, " <- ")
 }
 
-func handleBQL(req []byte) []byte {
-	var r BQLReq
-	if err := jsonUnmarshal(req, &r); err != nil {
-		return jsonMarshal(BQLResp{Err: "bad request: " + err.Error()})
-	}
+var storePool = map[string]storage.Store{}
+
+// pooledStore returns a store holding exactly the given graphs and triples.
+func pooledStore(graphs []GraphSpec) (storage.Store, error) {
 	bg := context.Background()
-	var st storage.Store = memory.NewStore()
-	for _, g := range r.Graphs {
-		gr, err := st.NewGraph(bg, g.Name)
+	if len(graphs) == 0 {
+		return memory.NewStore(), nil
+	}
+	var names []string
+	for _, g := range graphs {
+		names = append(names, g.Name)
+	}
+	sort.Strings(names)
+	key := strings.Join(names, "\x00")
+	st := storePool[key]
+	if st != nil {
+		// usable only if it still has exactly these graphs
+		have, err := graphNames(st)
+		if err != nil || strings.Join(have, "\x00") != key {
+			st = nil
+		}
+	}
+	if st == nil {
+		st = memory.NewStore()
+		for _, n := range names {
+			if _, err := st.NewGraph(bg, n); err != nil {
+				return nil, err
+			}
+		}
+		if len(storePool) > 16 {
+			storePool = map[string]storage.Store{}
+		}
+		storePool[key] = st
+	}
+	for _, g := range graphs {
+		gr, err := st.Graph(bg, g.Name)
 		if err != nil {
-			return jsonMarshal(BQLResp{Err: "setup: " + err.Error()})
+			return nil, err
+		}
+		ch := make(chan *triple.Triple, 1<<16)
+		if err := gr.Triples(bg, storage.DefaultLookup, ch); err != nil {
+			return nil, err
+		}
+		var old []*triple.Triple
+		for t := range ch {
+			old = append(old, t)
+		}
+		if err := gr.RemoveTriples(bg, old); err != nil {
+			return nil, err
 		}
 		var ts []*triple.Triple
 		for _, t := range g.Triples {
 			ts = append(ts, t.MustTriple())
 		}
 		if err := gr.AddTriples(bg, ts); err != nil {
-			return jsonMarshal(BQLResp{Err: "setup: " + err.Error()})
+			return nil, err
 		}
+	}
+	return st, nil
+}
+
+func handleBQL(req []byte) []byte {
+	var r BQLReq
+	if err := jsonUnmarshal(req, &r); err != nil {
+		return jsonMarshal(BQLResp{Err: "bad request: " + err.Error()})
+	}
+	bg := context.Background()
+	// Building a memory graph is very expensive (~100 ms: it pre-allocates seven
+	// maps of 10000 entries), so stores are pooled per set of graph names and
+	// reset to the requested content by removing what they hold.
+	st, err := pooledStore(r.Graphs)
+	if err != nil {
+		return jsonMarshal(BQLResp{Err: "setup: " + err.Error()})
 	}
 	plain := st
 	var rec *wrapstore.Recorder
@@ -230,6 +286,7 @@ func handleBQL(req []byte) []byte {
 		t0 := time.Now()
 		res, tbl := execBQL(bg, run.Text, st, run.ChanSize, run.BulkSize)
 		res.Micros = time.Since(t0).Microseconds()
+
 		if tbl != nil {
 			func() {
 				defer func() {
